@@ -160,8 +160,8 @@ func cmdCheck(args []string) {
 		for _, fn := range eng.allFunctions(p) {
 			sn := eng.shortName(fn)
 			ct := eng.contractFor(fn)
-			if ct != nil && ct.Flags["trusted"] {
-				continue
+			if ct != nil && ct.Flags["trusted"] && !matchFunc(cfg.Sweep, sn) {
+				continue // a trusted contract is an assumption, not a claim (the panic sweep still looks at the body)
 			}
 			if (matchFunc(cfg.Functions, sn) && ct != nil) || matchFunc(cfg.Sweep, sn) {
 				if !seenFn[sn] {
